@@ -12,6 +12,10 @@ CLAIMS = {
    text="Theorems over a hand model of BodyStructParser (BodyStruct.v), for all trees of any width and depth: the map built by the walker holds exactly (IMAP part specifier -> part) (soundness, completeness, no key inserted twice); every candidate search() may return leads to a part satisfying the predicate, and there is a candidate iff some part satisfies it; every index lies between 1 and the widest multipart (u32 counter cannot overflow below 2^32 children). Tied to the code by running the real BodyStructParser on ~35 000 generated (tree, predicate) cases and requiring its answer to be one of the model's candidates; an implementation-only oracle (the property's own definition of part specifiers) judges violations.",
    note=TB + "Modelled, not verified: HashMap (insert keeps last value per key; iteration order arbitrary). message/rfc822 parts are leaves for the walker, as in the code.",
    technique="Coq proof by induction over trees + extraction-based differential vs BodyStructParser", ref="3 C17"),
+ "C02": dict(
+   text="Generic theorem run_stab, proved once over the deep-embedded grammar for ANY grammar without complete-mode nom primitives, any actions, any fuel and loop bounds: accept (same value, same consumed length), Error and Failure verdicts are unchanged when arbitrary bytes are appended. Instantiated on the grammar that rs2coq regenerates from /repo on every run (140 parser functions): reflection obligation streaming_only = true by vm_compute, c02_verdicts_final for all buffers B and continuations X, and the corollary that every proper prefix of an accepted response is neither accepted nor rejected. The model is tied to the code by the translator (the use-lists decide streaming vs complete per module) and by comparing model and implementation results (verdict, consumed length, full value) on generated responses, all their prefixes, mutated/spliced buffers; violations are searched on the implementation alone.",
+   note=TB + "rs2coq (unverified translator) in the trusted base. Modelled, not verified: nom 7.1.3 primitives/combinators (Nom.v, Interp.v), the hand models of number/literal/entry_name and of the irregular closures (Natives.v). RPanic/RFuel outcomes are excluded by C01's theorems, not here.",
+   technique="Coq generic metatheorem over a deep-embedded grammar + vm_compute reflection on the regenerated grammar + extraction-based differential", ref="3 C02"),
  "C10": dict(
    text="Theorems over a hand model of quoted_string (the imperative loop with start/new/slices and the borrowed fast path) and of the text-taking builders (Builders.v), for ALL byte strings of any length: the loop computes exactly `escape` (refinement); refusal iff the text contains CR or LF; the output contains no CR/LF; an independent quoted-string lexer reads back exactly the text given and stops at the closing quote; whole commands lex to verb + the given arguments (hence injectivity); UTF-8 validity is preserved so the inner unwrap cannot fail; the encoded request is one line ending in the only CRLF. Tied to the code by exhaustive comparison on all ASCII strings of length <= 2 (quick) / 3 (thorough) in each of the 6 argument slots plus random Unicode strings, including the bytes the real client writes.",
    note=TB + "Modelled, not verified: Rust's String::from_utf8 (RFC 3629 automaton in Bytes.v), format!. Arguments are &str (valid UTF-8); the theorems cover all byte strings and show the panic branch unreachable for valid UTF-8.",
